@@ -23,8 +23,9 @@ RULE = (
     "for each with_fields_set class of the pool: initial states = constructor with every subset of arguments (positional "
     "prefix and keyword) and deserialize with every subset of keys; operations = set_fields / unset_fields / "
     "set_fields(overwrite) / attribute assignment (2 values) / apischema.dataclasses.replace / dataclasses.replace on every "
-    "field; breadth-first search over histories, each replayed on a fresh real object, deduplicated on the canonical state "
-    "(class, field values, tracked set) until no new state appears; in every state fields_set, is_set, serialize() and "
+    "field, plus set / unset / assignment on the object the last replace() was taken from (it stays alive as a second "
+    "object with its own model: the copy and its source must stay independent); breadth-first search over histories, each replayed on a fresh real object, deduplicated on the canonical state "
+    "(class, field values, tracked set) of the current object and of the retained source, until no new state appears; in every state fields_set, is_set, serialize() and "
     "serialize(exclude_unset=False) are compared with a set model."
 )
 
@@ -217,13 +218,22 @@ def build(mod, cname, init, history):
         aliases = spec.get("aliases", {})
         obj = deserialize(cls, {aliases.get(k, k): v for k, v in payload.items()})
         model = Model(cname, payload)
+    prev = None  # (object, model) a replace() was last taken from: it stays alive and must stay independent
     for op in history:
+        if op[0].startswith("prev_"):
+            if prev is not None:
+                op2 = (op[0][5:],) + tuple(op[1:])
+                apply_real(mod, prev[0], op2)
+                prev[1].apply(op2)
+            continue
+        if op[0] in ("replace", "dc_replace"):
+            prev = (obj, model)
         obj = apply_real(mod, obj, op)
         model = model.apply(op)
-    return obj, model
+    return obj, model, prev
 
 
-def check_state(cname, obj, model: Model, hist, st: infra.Stats):
+def check_state(cname, obj, model: Model, hist, st: infra.Stats, role: str = "current"):
     spec = POOL[cname]
     aliases = spec.get("aliases", {})
     problems = []
@@ -254,8 +264,8 @@ def check_state(cname, obj, model: Model, hist, st: infra.Stats):
     for kind, msg in problems:
         st.violation(
             {
-                "signature": {"kind": kind, "class": cname, "last_op": hist[-1][0] if hist else "init"},
-                "what": f"{cname} after {hist}: {msg}"[:400],
+                "signature": dict({"kind": kind, "class": cname, "last_op": hist[-1][0] if hist else "init"}, **({"object": role} if role != "current" else {})),
+                "what": f"{cname} after {hist}{'' if role == 'current' else ' (' + role + ')'}: {msg}"[:400],
                 "class": cname,
                 "history": [list(h) if isinstance(h, tuple) else h for h in hist],
             }
@@ -285,19 +295,20 @@ def explore_class(mod, cname, st: infra.Stats, max_depth: int):
         ops += [("set", f), ("unset", f), ("overwrite", f), ("assign", f, 0), ("assign", f, val.get(f, 1))]
         if f not in spec.get("noinit", {}):
             ops += [("replace", f, 0), ("dc_replace", f, val.get(f, 1))]
+        ops += [("prev_set", f), ("prev_unset", f), ("prev_assign", f, 0)]
     seen = set()
     frontier = deque()
     transitions = 0
     maxd = 0
     for init in inits:
         try:
-            obj, model = build(mod, cname, init, [])
+            obj, model, _ = build(mod, cname, init, [])
         except Exception as e:
             st.violation({"signature": {"kind": "init_exception", "class": cname}, "what": f"{cname} {init}: {type(e).__name__}: {e}", "class": cname, "history": [init]})
             continue
         transitions += 1
         check_state(cname, obj, model, [init], st)
-        k = canon(obj)
+        k = (canon(obj), None)
         if k not in seen:
             seen.add(k)
             frontier.append((init, []))
@@ -306,14 +317,19 @@ def explore_class(mod, cname, st: infra.Stats, max_depth: int):
         init, hist = frontier.popleft()
         for op in ops:
             h2 = hist + [op]
+            if op[0].startswith("prev_") and not any(o[0] in ("replace", "dc_replace") for o in hist):
+                continue  # no retained source object yet: the operation is not enabled
             try:
-                obj, model = build(mod, cname, init, h2)
+                obj, model, prev = build(mod, cname, init, h2)
             except Exception as e:
                 st.violation({"signature": {"kind": "op_exception", "class": cname, "op": op[0], "exc": type(e).__name__}, "what": f"{cname} {init} {h2}: {type(e).__name__}: {e}"[:300], "class": cname, "history": [init] + h2})
                 continue
             transitions += 1
             check_state(cname, obj, model, [init] + h2, st)
-            k = canon(obj)
+            if prev is not None:
+                # the object replace() was called on is a second live object: same checks, its own model
+                check_state(cname, prev[0], prev[1], [init] + h2, st, role="source_of_replace")
+            k = (canon(obj), canon(prev[0]) if prev is not None else None)
             if k not in seen:
                 seen.add(k)
                 maxd = max(maxd, len(h2))
@@ -369,8 +385,10 @@ def replay(path: str) -> int:
     init = (hist[0][0], hist[0][1])
     ops = [tuple(h) for h in hist[1:]]
     st = infra.Stats()
-    obj, model = build(mod, v["class"], init, ops)
+    obj, model, prev = build(mod, v["class"], init, ops)
     check_state(v["class"], obj, model, hist, st)
+    if prev is not None:
+        check_state(v["class"], prev[0], prev[1], hist, st, role="source_of_replace")
     for x in st.violations:
         print(f"VIOLATION property=C15 replay={path}")
         print(" ", x["what"])
